@@ -10,6 +10,14 @@
 
 namespace vs {
 
+// dsim cells carry no happens-before by design (a scenario that talks through them leaves only the LIBRARY's synchronisation to order
+// the parties). Where the harness itself hands an object to another thread - something a real program would do through a mutex or
+// an atomic flag of its own - it uses these: the release / acquire pair a correct user would have had. Channel = cell index mod 64.
+inline void cell_set_hb(int i, long v) { dsim::hb_release(i); dsim::cell_set(i, v); }
+inline long cell_add_hb(int i, long d) { dsim::hb_release(i); return dsim::cell_add(i, d); }
+inline long cell_get_hb(int i) { long v = dsim::cell_get(i); dsim::hb_acquire(i); return v; }
+inline void wait_cell_hb(int i, long atleast = 1) { dsim::wait_cell(i, atleast); dsim::hb_acquire(i); }
+
 // Cell ranges are allocated statically per scenario; this is only a convenience for counters.
 struct Counter {
     int idx;
